@@ -231,6 +231,10 @@ func (p *FloatingIPPlugin) syncPodIP(pod *corev1.Pod) error {
 	if err != nil {
 		return err
 	}
+	if cniArgs == nil {
+		// the pod has no galaxy cni args annotation, e.g. it was not bound by galaxy-ipam
+		return nil
+	}
 	ipInfos := cniArgs.Common.IPInfos
 	for i := range ipInfos {
 		if ipInfos[i].IP == nil || ipInfos[i].IP.IP == nil {
